@@ -5,8 +5,8 @@
 // happens-before between consecutive critical sections), runs an overlap detector made of relaxed atomics (which
 // add no happens-before edges), and for the ticket lock records the ticket it was granted with (= serving_ticket_
 // while holding).  Oracle:  mutex-overlap (two threads inside / lost update), fifo (k-th grant does not carry
-// ticket start+k), counter (total), hang (watchdog).  TSan reports end the process (exit 97) and are turned into
-// kind "race" by comp/locks/check.py.
+// ticket start+k), hang (watchdog).  TSan reports end the process (exit 97) and are turned into
+// kind "race" by comp/locks/check.py.  Watchdog: 60 s + 1 s per 1000 lock/unlock pairs.
 #include <atomic>
 #include <chrono>
 #include <thread>
@@ -49,12 +49,13 @@ static void stress(L &l, int nt, long iters, uint32_t start, bool fifo) {
 	g_go.store(true, std::memory_order_relaxed);
 	auto t0 = std::chrono::steady_clock::now();
 	bool hung = false;
+	long watchdog_s = 60 + (long)nt * iters / 1000;
 	while(g_done.load(std::memory_order_relaxed) < nt) {
-		if(std::chrono::steady_clock::now() - t0 > std::chrono::seconds(120)) { hung = true; break; }
+		if(std::chrono::steady_clock::now() - t0 > std::chrono::seconds(watchdog_s)) { hung = true; break; }
 		std::this_thread::sleep_for(std::chrono::milliseconds(1));
 	}
 	if(hung) {
-		vh::oracle("hang", "%d threads x %ld lock/unlock pairs did not finish within 120 s", nt, iters);
+		vh::oracle("hang", "%d threads x %ld lock/unlock pairs did not finish within %ld s", nt, iters, watchdog_s);
 		fflush(stdout);
 		_exit(3);       // the spinning threads cannot be joined; the runner attributes the exit to this case
 	}
